@@ -79,6 +79,8 @@ def generate(spec):
         to = {"seconds": rng.choice([2, 5, 30])} if victim else {"hours": 12}
         insts.append({"role": "victim" if victim else "observer", "timeout": to})
         t = rng.randrange(0, 3 * 10**6)
+        if j >= 2 and rng.random() < 0.5:
+            t = rng.randrange(3 * 10**6, 14 * 10**6)      # a late-comer: created after others have stepped, stopped or expired
         if batch and j == 1:
             t = ops[0]["t_us"]          # created by the same /start-instances request as instance 0
         elif batch and j == 0:
